@@ -462,8 +462,10 @@ func genLookup(t *Tracer, m *Meta, prop, tier string, seed int64) {
 		for j := range vals {
 			vals[j] = encodeVal(enc, 7)
 		}
-		for _, o4 := range pickOpts(r, prop, 2) {
-			o4[0] = 1
+		for k, o4 := range pickOpts(r, prop, 2) {
+			// once with de-duplication (one key retained), once without (every leaf holds
+			// the same bytes)
+			o4[0] = k % 2
 			c := &TrieCase{Keys: keys, Enc: enc, Vals: vals, Opt4: o4}
 			runLookupCase(t, m, r, c, lookupOpts{qlimit: 120, table: true, loaded: true, keysObs: true, mcheck: prop == "C05"})
 		}
